@@ -1,6 +1,6 @@
 (** * C12 — Remote/local transparency: the server's response decodes to what the handler read. *)
 From WT Require Import Base.Wrap Base.ListX Base.Bytes Model.Time Model.Ring Model.Codec Model.Wire
-  Proofs.CodecProofs Proofs.WireProofs.
+  Proofs.CodecProofs Proofs.WireProofs Model.Update Model.Handle Model.Text Model.Cmd Model.Server Proofs.ServerProofs.
 
 Theorem C12_view_wire_roundtrip h l :
   wf_header h -> Forall wf_series l -> length l = length (h_arcs h) ->
@@ -52,3 +52,44 @@ Example C12_query_example :
                             ([110; 111; 119], [50; 48; 50; 54; 58; 48; 48])])
   = Some [([102; 105; 108; 101], [97; 43; 98; 38; 99; 61; 100; 37; 52; 49; 32; 35; 59; 255]); ([110; 111; 119], [50; 48; 50; 54; 58; 48; 48])].
 Proof. vm_compute. reflexivity. Qed.
+
+(** ** end to end (Model/Server.v): the handler, given the query the client builds for a view of
+    (file, archive, from, until, now), performs exactly the local read with these arguments —
+    whatever bytes the file name consists of, for every archive number and every 32-bit window and
+    clock — and answers with its encoded result; the client then holds the local result: the same
+    header and series when the file can be read, "does not exist" when it is missing, an error
+    otherwise.  The same for the sum endpoint.  ([lookup] / [glob]: the directory below the base, the
+    same function on both sides because both join the relative name to the base directory.) *)
+Theorem C12_server_performs_the_local_read lookup file aid from until now :
+  file <> [] -> Forall byte file -> - 2^63 <= aid < 2^63 ->
+  0 <= from < 2^32 -> 0 <= until < 2^32 -> 0 <= now < 2^32 ->
+  handle_view lookup (view_query file aid from until now) = respond (read_file (lookup file) aid from until now).
+Proof. exact (handle_view_is_local_read lookup file aid from until now). Qed.
+Print Assumptions C12_server_performs_the_local_read.
+
+Theorem C12_remote_view_is_local_view lookup file aid from until now :
+  file <> [] -> Forall byte file -> - 2^63 <= aid < 2^63 ->
+  0 <= from < 2^32 -> 0 <= until < 2^32 -> 0 <= now < 2^32 ->
+  match read_file (lookup file) aid from until now with
+  | RdNotExist => client_read (handle_view lookup (view_query file aid from until now)) = WNotExist
+  | RdErr | RdPanic => client_read (handle_view lookup (view_query file aid from until now)) = WErr
+  | RdOk h l =>
+    forall hd, h_header h = Some hd -> wf_header hd -> Forall wf_series l -> length l = length (h_arcs hd) ->
+    client_read (handle_view lookup (view_query file aid from until now)) = WOk hd l
+  end.
+Proof. exact (remote_view_is_local_view lookup file aid from until now). Qed.
+Print Assumptions C12_remote_view_is_local_view.
+
+Theorem C12_server_performs_the_local_sum F glob item pattern aid from until now :
+  item <> [] -> pattern <> [] -> Forall byte item -> Forall byte pattern -> - 2^63 <= aid < 2^63 ->
+  0 <= from < 2^32 -> 0 <= until < 2^32 -> 0 <= now < 2^32 ->
+  handle_sum F glob (sum_query item pattern aid from until now) =
+  respond (sum_files F (glob item pattern) aid from until now).
+Proof. exact (handle_sum_is_local_sum F glob item pattern aid from until now). Qed.
+Print Assumptions C12_server_performs_the_local_sum.
+
+(** the archive number travels as decimal text *)
+Theorem C12_atoi_reads_what_is_printed n : - 2^63 <= n < 2^63 -> atoi (print_int n) = Some n.
+Proof. exact (atoi_print_int n). Qed.
+Print Assumptions C12_atoi_reads_what_is_printed.
+
